@@ -17,8 +17,10 @@ type (
 	CondAliasS  stackage.Condition
 )
 
-func (a StackAliasS) String() string { return stackage.Stack(a).String() }
-func (a CondAliasS) String() string  { return stackage.Condition(a).String() }
+// The aliases' own String methods deliberately differ from the native rendering: the library must
+// treat an alias exactly like the native value it converts to, not call the user's stringer.
+func (a StackAliasS) String() string { return "<StackAliasS.String>" }
+func (a CondAliasS) String() string  { return "<CondAliasS.String>" }
 
 // userOp is a user-defined Operator.
 type userOp struct{ text, ctx string }
